@@ -224,6 +224,23 @@ func c04One(i int, r *rand.Rand, res *core.Result) {
 			}
 		}
 		keys := sortedKeys(refs)
+		if r.Intn(3) == 0 {
+			// between the start and the first tick another controller catches up on a JobConfig's status: the
+			// previous process had created the Job of the first missed time but died before lastScheduled was
+			// written. A status write changes nothing about what is due (the request is made again, C02 dedups).
+			for _, k := range keys {
+				ref, jc := refs[k], persisted[k]
+				if c := ref.sched.next(ref.cursor); !c.IsZero() && !c.After(start) && r.Intn(2) == 0 {
+					cur := jc.DeepCopy()
+					ts := metav1.NewTime(c)
+					cur.Status.LastScheduled = &ts
+					if _, err := h.ctrl.Furiko().ExecutionV1alpha1().JobConfigs(cur.Namespace).UpdateStatus(ctx, cur, metav1.UpdateOptions{}); err == nil {
+						classes["status-write-before-first-tick"] = true
+					}
+				}
+			}
+			h.deliverAll()
+		}
 		nticks := 3 + r.Intn(25)
 		for tick := 0; tick < nticks; tick++ {
 			if tick > 0 || r.Intn(2) == 0 {
